@@ -235,6 +235,38 @@ pub fn c02(c: &mut Ctx, b: &Budget) {
                 }
             }
         }
+        // a decorated assertion whose core assertion is already obscured (`ELIDED [ 'note': ... ]` in an assertion slot), then the
+        // subject-level operations, which rebuild the node around a new subject and must carry every assertion element over
+        if i % 4 == 2 {
+            let s0 = gen_leaf(c, &cfg);
+            let core = { let p = gen_leaf(c, &cfg); let o = gen_leaf(c, &cfg); c.assign(&format!("assertion {} {}", p, o)) };
+            let meta = gen_assertion(c, &cfg, 0);
+            let dec = c.assign(&format!("add {} {}", core, meta));
+            let mut host = c.assign(&format!("add {} {}", s0, dec));
+            if c.rng.chance(1, 2) { let a = gen_assertion(c, &cfg, 0); let n = c.assign(&format!("add {} {}", host, a)); if c.is_ok(&n) { host = n; } }
+            let act = match c.rng.below(3) { 0 => "elide".to_string(), 1 => "compress".to_string(), _ => format!("encrypt:{}", KEY2) };
+            let pre = c.assign(&format!("elide_set {} rem {} {}", host, act, core));
+            if let Some(pe) = c.env(&pre) {
+                c.count("branch:decorated-assertion-with-obscured-core");
+                let n = hex::encode(c.rng.bytes(12));
+                for op in ["compress_subject".to_string(), format!("encrypt_subject_kn {} {}", KEY1, n), "elide_subject".to_string()] {
+                    let r = match op.split(' ').next().unwrap() {
+                        "compress_subject" => c.assign(&format!("compress_subject {}", pre)),
+                        "encrypt_subject_kn" => c.assign(&format!("encrypt_subject {} {} {}", pre, KEY1, n)),
+                        _ => { let t = c.assign(&format!("subject {}", pre)); c.assign(&format!("elide_set {} rem elide {}", pre, t)) }
+                    };
+                    c.no_panic(&r, "obscuring");
+                    if let Some(res) = c.env(&r) {
+                        observe_env(c, &r, false);
+                        let v = check_positions(&pe, &res);
+                        c.check("digests-preserved", v.is_ok(), "digests-preserved", || format!("{} on an envelope holding a decorated assertion with an obscured core: {}: {} -> {}", op, v.unwrap_err(), shape(&pe), shape(&res)));
+                        // and back
+                        let back = match op.split(' ').next().unwrap() { "compress_subject" => Some(c.assign(&format!("uncompress_subject {}", r))), "encrypt_subject_kn" => Some(c.assign(&format!("decrypt_subject {} {}", r, KEY1))), _ => None };
+                        if let Some(bk) = back { if let Some(be) = c.env(&bk) { observe_env(c, &bk, false); let v = check_positions(&pe, &be); c.check("digests-preserved", v.is_ok() && be.is_identical_to(&pe), "digests-preserved", || format!("undoing {}: {} -> {}", op, shape(&pe), shape(&be))); } }
+                    }
+                }
+            }
+        }
         // whole-envelope encrypt: digest of the wrapped original - also when the original is itself a bare wrapper
         for input in [cur.clone(), c.assign(&format!("wrap {}", cur)), { let w = c.assign(&format!("wrap {}", cur)); c.assign(&format!("wrap {}", w)) }] {
             if i % 5 != 0 && input == cur { continue; }
